@@ -737,10 +737,11 @@ from specs import c11_condition as E  # noqa: E402
 register_class("LockFrontC19", {}, source=("anyio/_core/_synchronization.py", "Lock"))  # __aenter__ / __aexit__ of the Lock front-end
 if "LockFrontC19" not in (getattr(CLASSES["Lock"], "bases", ()) or ()):
     CLASSES["Lock"].bases = tuple(getattr(CLASSES["Lock"], "bases", ()) or ()) + ("LockFrontC19",)
-register_class("_TeeLink", {"value": OBJ, "next": RefT("_TeeLink"), "filled": BOOL}, source=(IT, "_TeeLink"))
+register_class("_TeeLink", {"value": OBJ, "next": RefT("_TeeLink"), "filled": BOOL, "$st": INT, "$idx": INT}, source=(IT, "_TeeLink"))
+CLASSES["_TeeLink"].ghost_fields = {"$st", "$idx"}  # ghost: the state whose chain the link belongs to, its position in the chain
 LINK = RefT("_TeeLink")
-register_class("_TeeState", {"iterator": SRC, "lock": RefT("Lock"), "$pulls": INT}, source=(IT, "_TeeState"))
-CLASSES["_TeeState"].ghost_fields = {"$pulls"}
+register_class("_TeeState", {"iterator": SRC, "lock": RefT("Lock"), "$pulls": INT, "$tail": RefT("_TeeLink"), "$lo0": INT}, source=(IT, "_TeeState"))
+CLASSES["_TeeState"].ghost_fields = {"$pulls", "$tail", "$lo0"}  # ghost: last link of the chain; position of the source when tee() took it over
 TEE_END = z3.Int("tee_end_marker")
 
 
@@ -751,6 +752,95 @@ def link_guarantee(a, b):
     return forall([x], z3.Implies(z3.And(z3.Select(a.arr("$", "alloc"), x), a.f("_TeeLink", "filled", x)), z3.And(b.f("_TeeLink", "filled", x), b.f("_TeeLink", "value", x) == a.f("_TeeLink", "value", x), b.f("_TeeLink", "next", x) == a.f("_TeeLink", "next", x))), patterns=[b.f("_TeeLink", "filled", x)])
 
 
+def links_wf(h):
+    """every filled link that holds an element (not the end marker) has a successor link"""
+    x = z3.Int(h.st.uniq("x"))
+    nxt = h.f("_TeeLink", "next", x)
+    return forall([x], z3.Implies(z3.And(z3.Select(h.arr("$", "alloc"), x), h.f("_TeeLink", "filled", x), h.f("_TeeLink", "value", x) != TEE_END), z3.And(nxt > 0, z3.Select(h.arr("$", "alloc"), nxt))), patterns=[h.f("_TeeLink", "next", x)])
+
+
+def ST(h, x):
+    return h.f("_TeeLink", "$st", x)
+
+
+def IDX(h, x):
+    return h.f("_TeeLink", "$idx", x)
+
+
+def ghost_wf(h):
+    """convention on the ghost field $st (written by ghost code only): non-zero only for allocated links of allocated states"""
+    x = z3.Int(h.st.uniq("x"))
+    al = h.arr("$", "alloc")
+    return forall([x], z3.Implies(ST(h, x) != 0, z3.And(x > 0, z3.Select(al, x), ST(h, x) > 0, z3.Select(al, ST(h, x)))), patterns=[ST(h, x)])
+
+
+def chain(h, s):
+    """the chain of links of tee state `s`:  L_0 -> L_1 -> ... -> tail.
+    Every link but the tail is filled; link number k holds source element number k (counted from where tee() took the
+    source over) and points to link k+1; the tail's number is the number of elements pulled from the source so far; the
+    end marker sits only in the tail and only when the source is exhausted."""
+    it = h.f("_TeeState", "iterator", s)
+    d = h.dq(SRC.cls, it)
+    tail, lo0 = h.f("_TeeState", "$tail", s), h.f("_TeeState", "$lo0", s)
+    F = lambda x: h.f("_TeeLink", "filled", x)
+    V = lambda x: h.f("_TeeLink", "value", x)
+    N = lambda x: h.f("_TeeLink", "next", x)
+    x = z3.Int(h.st.uniq("x"))
+    return [
+        ("the_tail_belongs_to_the_chain_and_its_number_is_the_number_of_elements_pulled", z3.And(tail > 0, ST(h, tail) == s, lo0 <= d.lo, d.lo <= d.hi, IDX(h, tail) == d.lo - lo0, z3.Implies(F(tail), z3.And(V(tail) == TEE_END, d.lo == d.hi)))),
+        ("every_link_but_the_tail_is_filled", forall([x], z3.Implies(ST(h, x) == s, z3.And(z3.Or(F(x), x == tail), 0 <= IDX(h, x), IDX(h, x) <= d.lo - lo0)), patterns=[ST(h, x)])),
+        ("link_k_holds_source_element_k_and_points_to_link_k_plus_1", forall([x], z3.Implies(z3.And(ST(h, x) == s, F(x), V(x) != TEE_END), z3.And(N(x) > 0, ST(h, N(x)) == s, IDX(h, N(x)) == IDX(h, x) + 1, IDX(h, x) < d.lo - lo0, V(x) == z3.Select(d.data, lo0 + IDX(h, x)))), patterns=[ST(h, x)])),
+        ("the_end_marker_sits_only_in_the_tail", forall([x], z3.Implies(z3.And(ST(h, x) == s, F(x), V(x) == TEE_END), x == tail), patterns=[ST(h, x)])),
+    ]
+
+
+def chain_frame(a, b, s):
+    """two-state: what never changes -- a link's chain and number, the state's source and origin, the source's contents"""
+    x = z3.Int(a.st.uniq("x"))
+    it = a.f("_TeeState", "iterator", s)
+    da, db = a.dq(SRC.cls, it), b.dq(SRC.cls, it)
+    return z3.And(
+        forall([x], z3.Implies(ST(a, x) != 0, z3.And(ST(b, x) == ST(a, x), IDX(b, x) == IDX(a, x))), patterns=[ST(b, x)]),
+        b.f("_TeeState", "iterator", s) == it,
+        b.f("_TeeState", "$lo0", s) == a.f("_TeeState", "$lo0", s),
+        db.hi == da.hi,
+        db.data == da.data,
+        db.lo >= da.lo,
+    )
+
+
+def other_chains_untouched(a, b, s):
+    x = z3.Int(a.st.uniq("x"))
+    return forall([x], z3.Implies(z3.And(ST(a, x) != 0, ST(a, x) != s), z3.And(*[b.f("_TeeLink", f_, x) == a.f("_TeeLink", f_, x) for f_ in ("value", "next", "filled")])), patterns=[b.f("_TeeLink", "filled", x)])
+
+
+def links_unchanged(a, b):
+    return z3.And(*[b.arr("_TeeLink", f_) == a.arr("_TeeLink", f_) for f_ in ("value", "next", "filled")])
+
+
+def _bind_fill(ip, args, kwargs):
+    return types.SimpleNamespace(self=args[0].t, link=args[1].t, cur=ip.ctx.cur.t)
+
+
+from segvc.unit import Case, Contract  # noqa: E402
+
+# the contract of _TeeState.fill: checked against fill's own body by TeeFillUnit, assumed by _TeeAsyncIterator.__anext__
+FILL = Contract(
+    "_TeeState.fill",
+    requires=lambda h, a: [("the_link_exists_and_belongs_to_this_state", z3.And(a.link > 0, z3.Select(h.arr("$", "alloc"), a.link), ST(h, a.link) == a.self))],
+    cases=[
+        Case("already_filled", when=lambda pre, a: pre.f("_TeeLink", "filled", a.link), ret_ty=BOOL, no_suspend=True, modifies=set(),
+             ensures=lambda pre, post, a, ret: [("reports_no_yield_point_and_touches_nothing", z3.And(z3.Not(ret), links_unchanged(pre, post), post.f("_TeeState", "$pulls", a.self) == pre.f("_TeeState", "$pulls", a.self)))]),
+        Case("filled_now", when=lambda pre, a: z3.Not(pre.f("_TeeLink", "filled", a.link)), ret_ty=BOOL,
+             ensures=lambda pre, post, a, ret: [("reports_a_yield_point_and_the_link_is_filled", z3.And(ret, post.f("_TeeLink", "filled", a.link))), ("filled_links_are_untouched", link_guarantee(pre, post)), ("links_stay_well_formed", links_wf(post)), ("chain_membership_and_the_source_contents_never_change", chain_frame(pre, post, a.self)), ("ghost_convention", ghost_wf(post))] + [("chain." + n, t) for n, t in chain(post, a.self)]),
+        Case("cancelled", when=lambda pre, a: z3.Not(pre.f("_TeeLink", "filled", a.link)), raises="CancelledError",
+             ensures=lambda pre, post, a, ret: [("filled_links_are_untouched", link_guarantee(pre, post)), ("links_stay_well_formed", links_wf(post)), ("chain_membership_and_the_source_contents_never_change", chain_frame(pre, post, a.self)), ("ghost_convention", ghost_wf(post))] + [("chain." + n, t) for n, t in chain(post, a.self)]),
+    ],
+    bind=_bind_fill,
+    suspends=True,
+)
+
+
 class TeeFillUnit(MethodUnit):
     """_TeeState.fill(link): on return the link is filled; the shared source is pulled at most once, only while the
     state's lock is held and only if the link is still unfilled then; the link receives exactly the next source element
@@ -759,7 +849,7 @@ class TeeFillUnit(MethodUnit):
     props = ("C19",)
     spec = ClassSpec("_TeeState")
     method = "fill"
-    contract = None
+    contract = FILL
     trusted = ("E1", "E2", "A-private-iterator")
     contracts = {"Lock.acquire": E.LOCK_ACQUIRE_S, "Lock.release": L.RELEASE}
 
@@ -814,7 +904,7 @@ class TeeFillUnit(MethodUnit):
     def make_args(self, ip):
         self.link = Sym(z3.Int("link"), LINK)
         ip.st.assume(z3.And(self.link.t > 0, ip.st.allocated(self.link.t)))
-        return [self.link], types.SimpleNamespace()
+        return [self.link], types.SimpleNamespace(link=self.link.t)
 
     def assume_state(self, ip):
         h = H(ip.st)
@@ -827,9 +917,14 @@ class TeeFillUnit(MethodUnit):
         for n, t in L.LOCK.assumed_terms(h, lk, cur) + L.LOCK.inv_terms(h, lk, cur):
             ip.st.assume(t)
         ip.st.assume(L.owner(h, lk) != cur)  # not re-entered by the task that is filling (one fill per task at a time)
+        ip.st.assume(links_wf(h))
+        ip.st.assume(ghost_wf(h))
+        for n, t in chain(h, s):
+            ip.st.assume(t)
 
     def on_entry(self, ip, pre, a):
         self.pulls = []
+        self.extensions = []
         self.holding = False
         self.pulled = None
         self.pre = pre
@@ -848,6 +943,11 @@ class TeeFillUnit(MethodUnit):
         for n, t in L.LOCK.assumed_terms(h, lk, cur) + L.LOCK.inv_terms(h, lk, cur):
             ip.st.assume(t)
         ip.st.assume(link_guarantee(b, h))  # rely: everybody's guarantee
+        ip.st.assume(links_wf(h))
+        ip.st.assume(ghost_wf(h))
+        ip.st.assume(chain_frame(b, h, s))
+        for n, t in chain(h, s):
+            ip.st.assume(t)
         d, db = h.dq(SRC.cls, it), b.dq(SRC.cls, it)
         ip.st.assume(z3.And(d.hi == db.hi, d.data == db.data, d.lo >= db.lo, d.lo <= d.hi))
         if self.holding:
@@ -857,9 +957,31 @@ class TeeFillUnit(MethodUnit):
             ip.st.assume(d.lo == db.lo)
             ip.st.assume(h.f("_TeeLink", "filled", self.link.t) == b.f("_TeeLink", "filled", self.link.t))
             ip.st.assume(h.f("_TeeState", "$pulls", s) == b.f("_TeeState", "$pulls", s))
+            ip.st.assume(h.f("_TeeState", "$tail", s) == b.f("_TeeState", "$tail", s))  # the chain is extended only under the lock (proved below)
 
     def guarantee(self, seg, now, s, cur):
-        return [("a_filled_link_is_never_written_again", link_guarantee(seg, now))]
+        return [
+            ("a_filled_link_is_never_written_again", link_guarantee(seg, now)),
+            ("every_filled_link_with_an_element_has_a_successor", links_wf(now)),
+            ("chain_membership_and_the_source_contents_never_change", chain_frame(seg, now, s)),
+            ("links_of_other_chains_are_not_touched", other_chains_untouched(seg, now, s)),
+            ("ghost_convention", ghost_wf(now)),
+        ] + [("chain." + n, t) for n, t in chain(now, s)]
+
+    def after_field_store(self, ip, cn, attr, obj):
+        # ghost code at the linearisation point `link.filled = True`: a link that received an element extends the chain
+        if cn != "_TeeLink" or attr != "filled":
+            return
+        st = ip.st
+        if not z3.is_true(z3.simplify(st.get("_TeeLink", "filled", obj.t))):
+            return
+        s = self.self_val.t
+        v, n = st.get("_TeeLink", "value", obj.t), st.get("_TeeLink", "next", obj.t)
+        ext = v != TEE_END
+        self.extensions.append(self.holding)
+        st.put("_TeeLink", "$st", n, z3.If(ext, s, st.get("_TeeLink", "$st", n)))
+        st.put("_TeeLink", "$idx", n, z3.If(ext, st.get("_TeeLink", "$idx", obj.t) + 1, st.get("_TeeLink", "$idx", n)))
+        st.put("_TeeState", "$tail", s, z3.If(ext, n, st.get("_TeeState", "$tail", s)))
 
     def on_exit(self, ip, pre, a, exc, ret):
         s = a.self
@@ -876,11 +998,205 @@ class TeeFillUnit(MethodUnit):
             nxt = post.f("_TeeLink", "next", ln)
             ip.ctx.oblige(f"{nm}/post:the_link_gets_exactly_the_pulled_element_and_a_fresh_successor_unless_the_source_ended", z3.And(post.f("_TeeLink", "value", ln) == v, z3.If(v == TEE_END, z3.BoolVal(True), z3.And(nxt > 0, z3.Not(z3.Select(self.pre.arr("$", "alloc"), nxt)), z3.Not(post.f("_TeeLink", "filled", nxt))))), "post")
             ip.ctx.oblige(f"{nm}/post:reports_a_yield_point_when_it_pulled", z3.BoolVal(ip.truth(ret) is True), "post")
+        ip.ctx.oblige(f"{nm}/post:the_chain_is_extended_only_under_the_lock", z3.BoolVal(all(self.extensions)), "post")
         if self.holding:
             ip.ctx.oblige(f"{nm}/post:the_lock_is_released", z3.BoolVal(False), "post")
 
 
 UNITS += [TeeFillUnit]
+
+
+# ---- tee: _TeeAsyncIterator.__anext__ (modular: against the contract of fill) ------------------------------------------------------
+
+register_class("_TeeAsyncIterator", {"_state": RefT("_TeeState"), "_link": LINK, "_element_yielded": BOOL}, source=(IT, "_TeeAsyncIterator"))
+
+
+class TeeNextUnit(MethodUnit):
+    """_TeeAsyncIterator.__anext__: returns exactly the element of the link the iterator stands on and moves to that
+    link's successor; StopAsyncIteration exactly when the link holds the end marker (and the iterator stays there);
+    a cancellation by a cancel scope does not move the iterator; no link is ever written here.  With fill's contract
+    (a link is filled once, with the next source element, and never changes afterwards) every iterator that starts on
+    the same link therefore reads the same sequence."""
+
+    props = ("C19",)
+    spec = ClassSpec("_TeeAsyncIterator")
+    method = "__anext__"
+    contract = None
+    trusted = ("E1", "E2", "A-private-iterator")
+    contracts = {"_TeeState.fill": FILL}
+
+    def props_of(self, name):
+        return {"C19"}
+
+    def __init__(self):
+        super().__init__()
+        self.globals = {
+            "_tee_end": Sym(TEE_END, OBJ),
+            "checkpoint": Builtin("checkpoint", lambda ip: AwaitableVal("checkpoint")),
+            "checkpoint_if_cancelled": Builtin("checkpoint_if_cancelled", lambda ip: AwaitableVal("checkpoint")),
+            "cancel_shielded_checkpoint": Builtin("cancel_shielded_checkpoint", lambda ip: AwaitableVal("cancel_shielded_checkpoint")),
+            "T": None,
+            "cast": Builtin("cast", lambda ip, ty, v: v),
+        }
+
+    def assume_state(self, ip):
+        h = H(ip.st)
+        s = self.self_val.t
+        stt, ln = h.f("_TeeAsyncIterator", "_state", s), h.f("_TeeAsyncIterator", "_link", s)
+        ip.st.assume(z3.And(stt > 0, ip.st.allocated(stt), ln > 0, ip.st.allocated(ln), TEE_END != 0))
+        ip.st.assume(links_wf(h))
+        ip.st.assume(ghost_wf(h))
+        ip.st.assume(ST(h, ln) == stt)  # the iterator stands on a link of its own state's chain (asserted again at every exit)
+        it = h.f("_TeeState", "iterator", stt)
+        ip.st.assume(z3.And(it > 0, ip.st.allocated(it)))
+        for n, t in chain(h, stt):
+            ip.st.assume(t)
+
+    def on_entry(self, ip, pre, a):
+        self.pre = pre
+
+    def resume_assumptions(self, ip, what, payload):
+        h, b = H(ip.st), self.before
+        s = self.self_val.t
+        # A-private-iterator: one consumer per tee iterator at a time -- its own three fields are its own
+        for f_ in ("_state", "_link", "_element_yielded"):
+            ip.st.assume(h.f("_TeeAsyncIterator", f_, s) == b.f("_TeeAsyncIterator", f_, s))
+        ip.st.assume(z3.And(ip.st.allocated(h.f("_TeeAsyncIterator", "_state", s)), ip.st.allocated(h.f("_TeeAsyncIterator", "_link", s))))
+        ip.st.assume(link_guarantee(b, h))  # rely: fill's guarantee (proved by TeeFillUnit)
+        ip.st.assume(links_wf(h))
+        ip.st.assume(ghost_wf(h))
+        stt = h.f("_TeeAsyncIterator", "_state", s)
+        ip.st.assume(chain_frame(b, h, stt))
+        for n, t in chain(h, stt):
+            ip.st.assume(t)
+
+    def guarantee(self, seg, now, s, cur):
+        stt = seg.f("_TeeAsyncIterator", "_state", s)
+        it = seg.f("_TeeState", "iterator", stt)
+        return [
+            ("no_link_is_written_by_an_iterator", z3.And(links_unchanged(seg, now), now.arr("_TeeLink", "$st") == seg.arr("_TeeLink", "$st"), now.arr("_TeeLink", "$idx") == seg.arr("_TeeLink", "$idx"))),
+            ("the_source_is_not_consumed_by_an_iterator", z3.And(now.dq(SRC.cls, it).lo == seg.dq(SRC.cls, it).lo, now.f("_TeeState", "$tail", stt) == seg.f("_TeeState", "$tail", stt))),
+        ]
+
+    def on_exit(self, ip, pre, a, exc, ret):
+        post = H(ip.st)
+        nm = "_TeeAsyncIterator.__anext__"
+        s = a.self
+        l0 = pre.f("_TeeAsyncIterator", "_link", s)
+        l1 = post.f("_TeeAsyncIterator", "_link", s)
+        same_state = post.f("_TeeAsyncIterator", "_state", s) == pre.f("_TeeAsyncIterator", "_state", s)
+        val = post.f("_TeeLink", "value", l0)
+        stt = pre.f("_TeeAsyncIterator", "_state", s)
+        it = pre.f("_TeeState", "iterator", stt)
+        d0, d1 = pre.dq(SRC.cls, it), post.dq(SRC.cls, it)
+        lo0 = pre.f("_TeeState", "$lo0", stt)
+        k = IDX(pre, l0)  # the iterator's position: how many elements it has returned since the chain's start
+        ip.ctx.oblige(f"{nm}/inv:the_iterator_stands_on_a_link_of_its_own_chain", z3.And(same_state, ST(post, l1) == stt), "inv")
+        if exc is not None:
+            name = exc.pycls.__name__ if exc.pycls is not None else "sym"
+            if name == "CancelledError":
+                by_scope = exc.tag if getattr(exc, "tag", None) is not None else z3.BoolVal(True)
+                ip.ctx.oblige(f"{nm}/post:a_cancellation_by_a_cancel_scope_does_not_move_the_iterator", z3.Implies(by_scope, z3.And(l1 == l0, same_state)), "post")
+                return
+            ip.ctx.oblige(f"{nm}/post:StopAsyncIteration_exactly_at_the_end_marker_and_the_iterator_stays_there", z3.And(z3.BoolVal(name == "StopAsyncIteration"), post.f("_TeeLink", "filled", l0), val == TEE_END, l1 == l0, same_state), "post")
+            ip.ctx.oblige(f"{nm}/post:stops_only_after_the_whole_source_sequence_and_only_when_the_source_is_exhausted", z3.And(k == d0.hi - lo0, d1.lo == d1.hi), "post")
+            return
+        ip.ctx.oblige(f"{nm}/post:returns_the_element_of_its_link_and_moves_to_the_successor", z3.And(post.f("_TeeLink", "filled", l0), val != TEE_END, ip.term(ret, OBJ) == val, l1 == post.f("_TeeLink", "next", l0), l1 > 0, z3.Select(post.arr("$", "alloc"), l1), same_state), "post")
+        ip.ctx.oblige(f"{nm}/post:the_kth_call_returns_source_element_k_and_advances_the_position_by_one", z3.And(0 <= k, k < d0.hi - lo0, ip.term(ret, OBJ) == z3.Select(d0.data, lo0 + k), IDX(post, l1) == k + 1), "post")
+
+
+UNITS += [TeeNextUnit]
+
+
+
+class TeeInitUnit(MethodUnit):
+    """_TeeAsyncIterator.__init__: built from another tee iterator it shares that iterator's state and stands on the same
+    link (same position in the same chain, nothing else touched); built from an iterable it owns a fresh state whose chain
+    is one fresh unfilled link at position 0 and whose source is the iterable, taken over where it stands."""
+
+    props = ("C19",)
+    spec = ClassSpec("_TeeAsyncIterator")
+    method = "__init__"
+    is_init = True
+    contract = None
+    trusted = ("E1", "A-dataclass")
+
+    def props_of(self, name):
+        return {"C19"}
+
+    def __init__(self):
+        super().__init__()
+        self.globals = {
+            "_iterate": Builtin("_iterate", lambda ip, it: it),
+            "_TeeLink": ClassVal("_TeeLink", info=CLASSES["_TeeLink"]),
+            "_TeeState": ClassVal("_TeeState", info=CLASSES["_TeeState"]),
+            "_TeeAsyncIterator": ClassVal("_TeeAsyncIterator", info=CLASSES["_TeeAsyncIterator"]),
+            "Lock": Builtin("Lock", E._new_lock),
+            "field": Builtin("field", lambda ip, **kw: None),
+        }
+
+    def isinstance(self, ip, x, cls):
+        if isinstance(cls, ClassVal) and cls.name == "_TeeAsyncIterator" and isinstance(x, Sym):
+            return isinstance(x.ty, RefT) and x.ty.cls == "_TeeAsyncIterator"
+        return NotImplemented
+
+    def make_args(self, ip):
+        st = ip.st
+        h = H(st)
+        self.from_iterator = ip.ctx.decide(2, "built-from-a-tee-iterator") == 1
+        st.assume(ghost_wf(h))
+        st.assume(TEE_END != 0)
+        if self.from_iterator:
+            o = Sym(z3.Int("other"), RefT("_TeeAsyncIterator"))
+            ostt, oln = h.f("_TeeAsyncIterator", "_state", o.t), h.f("_TeeAsyncIterator", "_link", o.t)
+            st.assume(z3.And(o.t > 0, st.allocated(o.t), ostt > 0, st.allocated(ostt), oln > 0, st.allocated(oln), ST(h, oln) == ostt))
+            self.arg = o
+        else:
+            r = Sym(z3.Int("iterable"), SRC)
+            d = h.dq(SRC.cls, r.t)
+            st.assume(z3.And(r.t > 0, st.allocated(r.t), 0 <= d.lo, d.lo <= d.hi))
+            self.arg = r
+        return [self.arg], types.SimpleNamespace()
+
+    def on_entry(self, ip, pre, a):
+        self.pre = pre
+
+    def ghost_exit(self, ip, pre, a, exc, ret):
+        if exc is not None or self.from_iterator:
+            return
+        # ghost initialisation of a fresh chain: the new link is link number 0 and the tail; the source's position is the origin
+        st, s = ip.st, a.self
+        h = H(st)
+        stt, ln = h.f("_TeeAsyncIterator", "_state", s), h.f("_TeeAsyncIterator", "_link", s)
+        st.put("_TeeLink", "$st", ln, stt)
+        st.put("_TeeLink", "$idx", ln, z3.IntVal(0))
+        st.put("_TeeState", "$tail", stt, ln)
+        st.put("_TeeState", "$lo0", stt, h.dq(SRC.cls, h.f("_TeeState", "iterator", stt)).lo)
+        st.put("_TeeState", "$pulls", stt, z3.IntVal(0))
+
+    def on_exit(self, ip, pre, a, exc, ret):
+        post = H(ip.st)
+        nm = "_TeeAsyncIterator.__init__"
+        s = a.self
+        if exc is not None:
+            ip.ctx.oblige(f"{nm}/post:never_raises", z3.BoolVal(False), "post")
+            return
+        stt, ln = post.f("_TeeAsyncIterator", "_state", s), post.f("_TeeAsyncIterator", "_link", s)
+        ip.ctx.oblige(f"{nm}/inv:the_iterator_stands_on_a_link_of_its_own_chain", z3.And(stt > 0, ln > 0, ST(post, ln) == stt, z3.Not(post.f("_TeeAsyncIterator", "_element_yielded", s))), "inv")
+        ip.ctx.oblige(f"{nm}/post:ghost_convention", ghost_wf(post), "post")
+        if self.from_iterator:
+            o = self.arg.t
+            ip.ctx.oblige(f"{nm}/post:a_copy_shares_the_state_and_stands_on_the_same_link", z3.And(stt == pre.f("_TeeAsyncIterator", "_state", o), ln == pre.f("_TeeAsyncIterator", "_link", o), links_unchanged(pre, post), post.arr("_TeeLink", "$st") == pre.arr("_TeeLink", "$st"), post.arr("_TeeLink", "$idx") == pre.arr("_TeeLink", "$idx"), post.arr("_TeeState", "$tail") == pre.arr("_TeeState", "$tail"), post.arr(SRC.cls, "lo") == pre.arr(SRC.cls, "lo")), "post")
+            return
+        al0 = pre.arr("$", "alloc")
+        it = post.f("_TeeState", "iterator", stt)
+        ip.ctx.oblige(f"{nm}/post:a_fresh_state_over_the_iterable_with_one_fresh_unfilled_link", z3.And(z3.Not(z3.Select(al0, stt)), z3.Not(z3.Select(al0, ln)), it == self.arg.t, z3.Not(post.f("_TeeLink", "filled", ln)), post.dq(SRC.cls, it).lo == pre.dq(SRC.cls, it).lo, post.f("_TeeState", "lock", stt) > 0, z3.Not(z3.Select(al0, post.f("_TeeState", "lock", stt)))), "post")
+        for n, t in chain(post, stt):
+            ip.ctx.oblige(f"{nm}/post:chain.{n}", t, "post")
+        ip.ctx.oblige(f"{nm}/post:links_of_other_chains_are_not_touched", other_chains_untouched(pre, post, stt), "post")
+
+
+UNITS += [TeeInitUnit]
 
 
 # ---- the sync -> async adaptor: every generator above consumes its input through it -------------------------------------------
@@ -961,3 +1277,48 @@ class AdaptorNextUnit(MethodUnit):
 
 
 UNITS += [AdaptorNextUnit]
+
+
+class IterateUnit(IterUnit):
+    """_iterate: an async iterator is handed through unchanged, an async iterable is asked for its iterator, anything else
+    is wrapped into a fresh adaptor over iter(iterable) -- nothing is consumed."""
+
+    modpath = IT
+    funcname = "_iterate"
+    trusted = ("E1", "A-dataclass")
+
+    def __init__(self):
+        super().__init__()
+        self.globals = dict(self.globals)
+        del self.globals["_iterate"]
+        self.globals["_IterableAsyncIterator"] = ClassVal("_IterableAsyncIterator", info=CLASSES["_IterableAsyncIterator"])
+
+    def make_args(self, ip):
+        self.new_source(ip, "iterable")
+        self.kind = ip.ctx.decide(3, "kind-of-iterable")  # 0: sync iterable, 1: async iterator, 2: async iterable that is not an iterator
+        return [self.src], {}
+
+    def isinstance(self, ip, x, cls):
+        if isinstance(x, Sym) and x.ty is SRC and isinstance(cls, ClassVal):
+            if cls.name == "AsyncIterator":
+                return self.kind == 1
+            if cls.name == "AsyncIterable":
+                return self.kind in (1, 2)
+        return NotImplemented
+
+    def on_exit(self, ip, pre, exc, ret):
+        h = H(ip.st)
+        nm = "_iterate"
+        if exc is not None:
+            ip.ctx.oblige(f"{nm}/post:never_raises", z3.BoolVal(False), "post")
+            return
+        d0, d1 = pre.dq(SRC.cls, self.src.t), h.dq(SRC.cls, self.src.t)
+        untouched = z3.And(d1.lo == d0.lo, d1.hi == d0.hi, d1.data == d0.data)
+        if self.kind in (1, 2):
+            ip.ctx.oblige(f"{nm}/post:an_async_source_is_handed_through_as_its_own_iterator", z3.And(z3.BoolVal(isinstance(ret, Sym) and ret.ty is SRC), ip.term(ret, SRC) == self.src.t if isinstance(ret, Sym) and ret.ty is SRC else z3.BoolVal(False), untouched), "post")
+        else:
+            ok = isinstance(ret, Sym) and isinstance(ret.ty, RefT) and ret.ty.cls == "_IterableAsyncIterator"
+            ip.ctx.oblige(f"{nm}/post:a_sync_iterable_is_wrapped_into_a_fresh_adaptor_over_its_iterator", z3.And(z3.BoolVal(ok), z3.Not(z3.Select(pre.arr("$", "alloc"), ret.t)), h.f("_IterableAsyncIterator", "iterator", ret.t) == self.src.t, untouched) if ok else z3.BoolVal(False), "post")
+
+
+UNITS += [IterateUnit]
